@@ -44,7 +44,7 @@ def gen_cases(tier, seed):
     rng = np.random.default_rng(seed + 606)
     k = 1 if tier == "quick" else 16
     cases = []
-    for arch in range(7):
+    for arch in range(9):
         for r in range(2 * k):
             cases.append(dict(kind="fn", arch=arch, seed=int(rng.integers(1 << 30)),
                               cost=3))
@@ -70,7 +70,7 @@ def make_arch(arch, rng):
     from vf.props.c19 import make_module
 
     kind = ["mlp", "layernorm", "doubleq", "sale", "encoder_policy", "tanh_policy",
-            "gaussian_tanh"][arch]
+            "gaussian_tanh", "mt_q", "mt_encoder_policy"][arch]
     seed = int(rng.integers(1 << 30))
     a, _ = make_module(kind, np.random.default_rng(seed))
     b, _ = make_module(kind, np.random.default_rng(seed + 1))
